@@ -57,7 +57,7 @@ func run(c Case) (v vkit.Verdict) {
 						msg = fmt.Sprintf("NearestNeighbor(%v) returned %v which is not stored", p, o)
 						return
 					}
-					if d := rtreekit.BoxDist(p, o.Bounds()); math.Abs(d-dists[0]) > eps {
+					if d := rtreekit.BoxDist(p, o.Bounds()); vkit.Off(d-dists[0], eps) {
 						msg = fmt.Sprintf("NearestNeighbor(%v) returned an object at distance %v, the minimum is %v (size %d, depth %d)", p, d, dists[0], len(m.Live), depth)
 					}
 					return
@@ -100,7 +100,7 @@ func run(c Case) (v vkit.Verdict) {
 						return
 					}
 					prev = d
-					if math.Abs(d-dists[j]) > eps {
+					if vkit.Off(d-dists[j], eps) {
 						msg = fmt.Sprintf("NearestNeighbors(%d, %v): slot %d is at distance %v but the %d-th smallest distance among the %d stored objects is %v (depth %d)", k, p, j, d, j+1, len(m.Live), dists[j], depth)
 						return
 					}
